@@ -72,3 +72,17 @@ Definition acc_offers (rq : request) (files : list cand) : accset :=
 Definition acc_add_none (s : accset) : accset := (true, snd s).
 Definition acc_mem (enc : option text) (s : accset) : bool :=
   match enc with None => fst s | Some e => mem_text e (snd s) end.
+
+(* the instance attributes static_view.__init__ binds (cache_max_age is not modelled) *)
+Record view_inst := mkView {
+  v_package_name : option text; v_docroot : text; v_norm_docroot : text; v_use_subpath : bool; v_index : text;
+  v_reload : bool; v_encodings : list (text * list text); v_filemap : filemap
+}.
+
+(* reference model of __init__: [caller] = caller_package().__name__, [encmap] = mimetypes.encodings_map.items() *)
+Definition init_model (encmap : list (text * text)) (caller root_dir : text) (package_name : option text)
+           (use_subpath : bool) (index : text) (reload : bool) (content_encodings : list text) : view_inst :=
+  let r := init_root root_dir package_name caller in
+  mkView (fst r) (snd r) (normpath (snd r)) use_subpath index reload (compile_encodings content_encodings encmap) [].
+
+Definition nonempty_list {A} (l : list A) : bool := match l with [] => false | _ => true end.
